@@ -5,11 +5,14 @@ import numpy as np
 
 from .. import bd, symc
 from ..engine import Rec
-from .herm import TOL, _numeric, _scale, _setup, _sig
+from .herm import TOL, LibraryRaised, _numeric, _scale, _setup, _sig, library_exception_info
 
 
 def c05(cfg, prop="C05"):
-    rec, P, Ht, U, Ui, dHt, dU, dUi = _setup(prop, cfg)
+    try:
+        rec, P, Ht, U, Ui, dHt, dU, dUi = _setup(prop, cfg)
+    except LibraryRaised as lr:
+        return lr.rec
     N = P.N
     elim, kept = P.elim, ~P.elim
     I, Z = symc.eye(N), symc.zeros(N, N)
@@ -93,7 +96,22 @@ def c05_vs_hermitian(cfg, prop="C05"):
     PH = bd.Problem(cfgH)
     outH = [PH.dense(S) for S in PH.run()]
     PN = bd.Problem(cfgN)  # same variable names -> same symbolic input
-    outN = [PN.dense(S) for S in PN.run()]
+    try:
+        outN = [PN.dense(S) for S in PN.run()]
+    except Exception as e:
+        is_lib, where = library_exception_info(e)
+        if not is_lib or isinstance(e, symc.SymbolicDivisionByZero):
+            raise
+        from .. import sympy_bridge as sb
+
+        reproduced = False
+        try:
+            _numeric(PN, sb.random_point(0), callback=(PN.carrier == "B"))
+        except Exception as e2:
+            reproduced = type(e2) is type(e)
+        rec.direct_violation(f"library raised {type(e).__name__} on a well-posed input", _sig(cfg, "raised-" + type(e).__name__),
+                             {"exception": f"{type(e).__name__}: {e}", "where": where}, reproduced=reproduced)
+        return rec
     rec.sample = {"config": cfg, "n_symbolic_reals": len(symc.CTX.vars)}
     from .. import solver
 
